@@ -55,6 +55,9 @@ async def extract_tar_stream(
         # If `dst` is a directory, copy the content of `src` inside `dst`
         if os.path.isdir(dst) and member.path == posixpath.basename(src):
             await tar.extract(member, dst, numeric_owner=True)
+            # If `src` is a directory, its content goes inside the extracted directory
+            if member.isdir():
+                dst = os.path.join(dst, member.path)
 
         # Otherwise, if copying a file, simply move it inside `dst`
         elif member.isfile():
